@@ -11,6 +11,7 @@ import json
 import os
 import re
 import shutil
+import signal
 import subprocess
 import sys
 import tempfile
@@ -34,14 +35,28 @@ def load_known(prop):
 
 
 def run_worker(args, env, timeout, stderr_path):
+    """One worker in a session of its own; whatever it leaves behind (the sanitizer runtime starts an
+    llvm-symbolizer child that outlives it) is killed with the session when the worker is done."""
     t0 = time.time()
     with open(stderr_path, "wb") as err:
+        p = subprocess.Popen([PYTHON, "-X", "faulthandler", "-m", "vf.worker"] + args, env=env,
+                             stdout=subprocess.PIPE, stderr=err, cwd=VERIF_ROOT, start_new_session=True)
         try:
-            p = subprocess.run([PYTHON, "-X", "faulthandler", "-m", "vf.worker"] + args, env=env,
-                               stdout=subprocess.PIPE, stderr=err, timeout=timeout, cwd=VERIF_ROOT)
-            return p.returncode, p.stdout.decode("utf-8", "replace"), time.time() - t0, False
-        except subprocess.TimeoutExpired as e:
-            return None, (e.stdout or b"").decode("utf-8", "replace"), time.time() - t0, True
+            out, _ = p.communicate(timeout=timeout)
+            return p.returncode, out.decode("utf-8", "replace"), time.time() - t0, False
+        except subprocess.TimeoutExpired:
+            kill_session(p.pid)
+            out, _ = p.communicate()
+            return None, (out or b"").decode("utf-8", "replace"), time.time() - t0, True
+        finally:
+            kill_session(p.pid)
+
+
+def kill_session(pgid):
+    try:
+        os.killpg(pgid, signal.SIGKILL)
+    except (ProcessLookupError, PermissionError):
+        pass
 
 
 def tail(path, n=3000):
